@@ -624,7 +624,8 @@ int main(int argc, char** argv) {
     Harvest hv;
     try { hv = harvest(parser, python); }
     catch (const std::exception& e) { fprintf(stderr, "c09_summary: harvest failed: %s\n", e.what()); return 3; }
-    for (auto& k : hv.accepted) rep.cover("harvest_accepted", k);
+    // (cover categories are split by the first two letters so that the complete lists survive in the evidence file)
+    for (auto& k : hv.accepted) rep.cover("harvest_accepted_" + k.substr(0, 2), k);
     for (auto& k : hv.rejected) rep.cover("harvest_rejected", k);
     for (auto& k : hv.noValue) rep.cover("harvest_accepted_but_never_evaluated", k);
     (void)perturb;
@@ -807,9 +808,9 @@ int main(int argc, char** argv) {
             for (const auto& kv : st) {
                 const std::string kw = kv.first.substr(0, kv.first.find(':'));
                 auto it = want.find(kv.first);
-                if (it == want.end()) { rep.cover("unmodelled_keyword", kw); continue; }
+                if (it == want.end()) { rep.cover("unmodelled_keyword_" + kw.substr(0, 1), kw); continue; }
                 if (R.undecided.count(kv.first)) { rep.count("history_values_not_decided"); continue; }
-                rep.cover("compared_keyword", kw);
+                rep.cover("compared_keyword_" + kw.substr(0, 2), kw);
                 compare("value:" + kw, kv.first, kv.second, it->second, ctx);
             }
             for (auto& key : mustHave) if (!st.has(key)) {
